@@ -42,3 +42,31 @@ package aggsigdb
 //@ requires nlw(db.blockedQueries, db.data)
 //@ loop 1 invariant nlw(db.blockedQueries, db.data)
 //@ loop 2 invariant nlw(db.blockedQueries, db.data)
+
+// ---- MemDBV2 (lock + broadcast notification) ----------------------------------------------
+
+//@ func (m *MemDBV2) store
+//@ props C17
+//@ assigns m.data, m.keysByDuty
+//@ ensures has(old(m.data), key) ==> m.data == old(m.data)
+//@ ensures result == nil && !has(old(m.data), key) ==> has(m.data, key) && m.data[key] == res(0, data.Clone())
+//@ ensures result != nil ==> m.data == old(m.data)
+//@ ensures forallk(k, old(m.data), has(m.data, k) && m.data[k] == old(m.data)[k])
+//@ canary result != nil
+
+//@ func (m *MemDBV2) Store
+//@ props C17
+//@ callreq close: a1 == m.notify
+//@ ensures result == nil ==> ncalls(close) == 1
+//@ ensures forallk(k, old(m.data), has(m.data, k) && m.data[k] == old(m.data)[k])
+//@ canary result != nil
+//@ loop 1 invariant ncalls(close) == 0
+//@ loop 1 invariant forallk(k, old(m.data), has(m.data, k) && m.data[k] == old(m.data)[k])
+
+//@ func (m *MemDBV2) Await$1
+//@ props C17
+//@ requires errMustLoop != nil && errMustLoop != ErrStopped && errMustLoop != ctx.Err()
+//@ ensures r1 != nil ==> r2 == errMustLoop && !has(m.data, memDBKey{duty: duty, pubKey: pubKey, subcommIdx: subcommIdx}) && r1 == m.notify
+//@ ensures r2 == errMustLoop && r1 == nil ==> has(m.data, memDBKey{duty: duty, pubKey: pubKey, subcommIdx: subcommIdx}) || m.notify == nil
+//@ ensures r2 == nil ==> has(m.data, memDBKey{duty: duty, pubKey: pubKey, subcommIdx: subcommIdx}) && r0 == res(0, m.data[memDBKey{duty: duty, pubKey: pubKey, subcommIdx: subcommIdx}].Clone())
+//@ canary r2 != nil
